@@ -40,6 +40,7 @@ type Program struct {
 	Threads []Thread `json:"threads"`
 	Backups bool     `json:"backups"`
 	Preload []string `json:"preload,omitempty"` // shards loaded (and idle) before the threads start
+	Damaged []string `json:"damaged,omitempty"` // shards whose database file is garbage at the start (a "repair" thread removes it)
 	Free    bool     `json:"free,omitempty"`    // race pass: plain goroutines, no scheduler, real locks and a real (short) idle timer
 }
 
@@ -106,7 +107,13 @@ func run(raw json.RawMessage, prefix []string) (*vsched.Trace, []schedlib.V, str
 		outcome = append(outcome, s)
 		hmu.Unlock()
 	}
-	request := func(name, shardId string) {
+	damaged := map[string]bool{}
+	for _, id := range p.Damaged {
+		os.MkdirAll(filepath.Dir(shardPath(id)), 0755)
+		os.WriteFile(shardPath(id), []byte("this is not a bbolt database, it only has to fail to open\n"), 0644)
+		damaged[id] = true
+	}
+	request := func(name, shardId string) (ok bool) {
 		ran := false
 		err := sm.DoWithShard(col, shardId, func(s *shard.Shard) (rerr error) {
 			ran = true
@@ -135,6 +142,7 @@ func run(raw json.RawMessage, prefix []string) (*vsched.Trace, []schedlib.V, str
 		switch {
 		case err == nil && ran:
 			note(name + ":ok")
+			return true
 		case err != nil && !ran:
 			note(name + ":clean-error") // allowed: a clean error before the callback
 		case err != nil && ran:
@@ -142,6 +150,7 @@ func run(raw json.RawMessage, prefix []string) (*vsched.Trace, []schedlib.V, str
 		default:
 			fail("request-returned-without-running", "%s returned nil without running the callback", name)
 		}
+		return false
 	}
 	done := 0
 	total := len(p.Threads)
@@ -170,6 +179,14 @@ func run(raw json.RawMessage, prefix []string) (*vsched.Trace, []schedlib.V, str
 						fail("delete-collection-error", "%v", err)
 					}
 					note(name + ":deleted")
+				case "repair":
+					// the cause of a failing open goes away (the damaged file is removed)
+					vsched.Point("repair-begin " + th.Shard)
+					os.Remove(shardPath(th.Shard))
+					hmu.Lock()
+					delete(damaged, th.Shard)
+					hmu.Unlock()
+					note(name + ":repaired")
 				}
 				hmu.Lock()
 				done++
@@ -189,7 +206,13 @@ func run(raw json.RawMessage, prefix []string) (*vsched.Trace, []schedlib.V, str
 				time.Sleep(50 * time.Microsecond)
 			}
 			for _, id := range []string{"s1", "s2"} {
-				request("probe", id)
+				ok := request("probe", id)
+				hmu.Lock()
+				bad := damaged[id]
+				hmu.Unlock()
+				if !ok && !bad {
+					fail("shard-cannot-be-loaded-again", "after all threads finished a new request on %s (whose database file is intact or absent) is refused: an earlier failed open left the manager in a state it does not recover from", id)
+				}
 			}
 		})
 	})
@@ -212,7 +235,7 @@ func run(raw json.RawMessage, prefix []string) (*vsched.Trace, []schedlib.V, str
 // freeRun executes the same thread bodies as plain goroutines (no controller:
 // a cooperative scheduler's hand-offs are happens-before edges that would blind
 // the race detector).  Built with -race by the thorough tier's race pass.
-func freeRun(p Program, sm *cluster.ShardManager, col models.Collection, request func(name, shard string), fail func(string, string, ...any), hmu *sync.Mutex, done *int) *vsched.Trace {
+func freeRun(p Program, sm *cluster.ShardManager, col models.Collection, request func(name, shard string) bool, fail func(string, string, ...any), hmu *sync.Mutex, done *int) *vsched.Trace {
 	for _, id := range p.Preload {
 		sm.DoWithShard(col, id, func(*shard.Shard) error { return nil })
 	}
@@ -258,7 +281,7 @@ func clipDump(dump, needle string) string {
 }
 
 func master(cfg *harness.Config, rep *harness.Report) {
-	rep.Rule = "programs: threads from {request(s1), request(s1) twice, request(s2), delete collection} (2-4 threads) x shards preloaded-and-idle or not x backups on/off; the idle timer of every loaded shard is a controller transition that can fire at any scheduling point while armed; scheduling points: every Lock/RLock/Unlock of the real shardmgr.go (shims), callback entry/middle/exit, deletion begin; all interleavings with at most `bound` preemptions. Invariants: the callback only runs on a usable shard handle (else a clean error before the callback), never two descriptors on one shard file, shard files present while a request uses them, no deadlock (every call returns), and a final probe can load and use every shard again"
+	rep.Rule = "programs: threads from {request(s1), request(s1) twice, request(s2), delete collection} (2-4 threads) x shards preloaded-and-idle or not x backups on/off, plus programs in which the database file of s1 cannot be opened until a repair thread removes it; the idle timer of every loaded shard is a controller transition that can fire at any scheduling point while armed; scheduling points: every Lock/RLock/Unlock of the real shardmgr.go (shims), callback entry/middle/exit, deletion begin; all interleavings with at most `bound` preemptions. Invariants: the callback only runs on a usable shard handle (else a clean error before the callback), never two descriptors on one shard file, shard files present while a request uses them, no deadlock (every call returns), and a final probe can load and use every shard again (also after opens that failed)"
 	rep.Assumptions = []string{"virtual timer follows the Go >= 1.23 Stop/Reset contract; it fires only at quiescent points, i.e. while the cleanup goroutine waits in its select", "channel operations of shardmgr.go are real; quiescence is a stop-the-world goroutine snapshot with every goroutine blocked", "lock operations are cooperative shims (sequentially consistent)"}
 	p := pool.New(pool.Options{CPUsPerWorker: 1, JobTimeout: 300 * time.Second})
 	if cfg.Replay != "" {
@@ -291,6 +314,7 @@ func master(cfg *harness.Config, rep *harness.Report) {
 	req1x2 := Thread{Kind: "req", Shard: "s1", Twice: true}
 	req2 := Thread{Kind: "req", Shard: "s2"}
 	del := Thread{Kind: "del"}
+	repair1 := Thread{Kind: "repair", Shard: "s1"}
 	two := [][]Thread{{req1, del}, {req1, req1}, {req1x2, del}}
 	three := [][]Thread{{req1, req2, del}, {req1, del, req1}, {del, del, req1}}
 	mk := func(sets [][]Thread, pres [][]string, backups []bool) []any {
@@ -310,6 +334,10 @@ func master(cfg *harness.Config, rep *harness.Report) {
 		bound    int
 	}
 	twoQuick := append(mk(two, [][]string{nil, {"s1"}}, []bool{false}), Program{Threads: []Thread{req1, del}, Backups: true, Preload: []string{"s1"}})
+	// a shard whose database file cannot be opened at first: requests get a clean error, and once the
+	// cause is gone the shard must load again
+	failing := []any{Program{Threads: []Thread{req1, repair1}, Damaged: []string{"s1"}}, Program{Threads: []Thread{req1x2, repair1, del}, Damaged: []string{"s1"}}}
+	twoQuick = append(twoQuick, failing...)
 	phases := []phase{
 		{"two-thread programs, bound 0", twoQuick, 0},
 		{"three-thread programs (s1 preloaded), bound 0", mk(three, [][]string{{"s1"}}, []bool{false}), 0},
@@ -318,6 +346,7 @@ func master(cfg *harness.Config, rep *harness.Report) {
 	if !cfg.Quick() {
 		twoAll := mk(two, [][]string{nil, {"s1"}, {"s1", "s2"}}, []bool{false, true})
 		threeAll := mk(three, [][]string{nil, {"s1"}, {"s1", "s2"}}, []bool{false})
+		twoAll = append(twoAll, failing...)
 		four := []any{Program{Threads: []Thread{req1, req2, del, req1x2}, Preload: []string{"s1"}}}
 		phases = []phase{
 			{"two-thread programs, bound 0", twoAll, 0},
